@@ -671,7 +671,12 @@ fn process_search(cfg: &RunCfg, item: &Item, rep: &mut PatReport) {
     }
     let mut compare_ref = true;
     if cfg.prop != "C05" {
-        if rp.has_f1 && item.gen != "f1-witness" {
+        // C01 compares existence and overall span only; in the F1 class those agree except
+        // for a lazy repeat inside the loop (has_f1_lazy).  Only the deterministic families
+        // are compared (their agreement on the unchanged tree is established once and does
+        // not depend on VERIF_SEED); random patterns of the class stay excluded.
+        let f1_spans = cfg.prop == "C01" && !rp.has_f1_lazy && !item.gen.starts_with("random");
+        if rp.has_f1 && item.gen != "f1-witness" && !f1_spans {
             rep.status = "skipped:F1 class (unbounded repeat over a body that can match empty)".to_string();
             return;
         }
@@ -761,6 +766,11 @@ pub fn work_list(cfg: &RunCfg) -> WorkList {
     }
     for w in corpus::bounded_repeats().iter() {
         fixed.push(Item::new(w, "bounded-repeats"));
+    }
+    if cfg.prop == "C01" {
+        for w in corpus::empty_loops_in_lookahead().iter() {
+            fixed.push(Item::new(w, "empty-loop-in-lookahead"));
+        }
     }
     for w in corpus::many_groups().iter() {
         let mut it = Item::new(w, "many-groups");
